@@ -95,6 +95,7 @@ from .edge.base_edge import BaseEdge
 from .edge.edge_landmark import EdgeLandmark
 from .edge.edge_odometry import EdgeOdometry
 from .g2o_parameters import G2OParameterSE2Offset, G2OParameterSE3Offset
+from .pose.se3 import PoseSE3
 from .vertex import Vertex
 
 
@@ -531,6 +532,14 @@ class Graph(object):
             The path where the graph will be saved
 
         """
+        # The offset of a 3-D landmark edge is only stored in the file as a ``PARAMS_SE3OFFSET`` line, so refuse to write
+        # an edge whose offset is not in the parameter table (the file could not be loaded, or would load differently)
+        for e in self._edges:
+            if isinstance(e, EdgeLandmark) and isinstance(e.offset, PoseSE3):
+                param = (self._g2o_params or {}).get(("PARAMS_SE3OFFSET", e.offset_id))
+                if param is None or not np.array_equal(param.value.to_array(), e.offset.to_array()):
+                    raise ValueError("The offset (ID: {}) of landmark edge {} is not in the graph's g2o parameters".format(e.offset_id, e.vertex_ids))  # fmt: skip
+
         with open(outfile, "w") as f:
             if self._g2o_params:
                 for g2o_param in self._g2o_params.values():
